@@ -66,6 +66,8 @@ def end_programs():
         for x in xs:
             out.append({"name": f"end/{k}", "src": decl + "parser { " + c.format(x=x) + " }\n"})
             k += 1
+    # a greedy case in a finishing state of one clause while the wildcard of another clause could go on (corpus/greedy-wildcard-end.nmfu)
+    out.append({"name": "end/greedy-wildcard", "src": 'out int seen = 0;\nparser { greedy case { "a" -> { seen = 1; } /a./ -> { seen = 2; } } }\n'})
     return out
 
 
